@@ -50,8 +50,10 @@ ForkChecks(t) ==
          \A u \in 1..(t - 1) : ResConflict(Tasks[u], Tasks[t]) => u \in done)
   /\ Chk("C07", "started-after-conflicting-successor",
          \A u \in (t + 1)..NT : Dyn(u, t) => u \notin (started \cup open))
+(* a fork inside which no task began (t = 0: a join branch that runs nothing) changes nothing *)
 OnFork ==
   LET t == E.t IN
+  IF t = 0 THEN UNCHANGED <<cur, open, started, done, coopen, early>> ELSE
   /\ ForkChecks(t)
   /\ open' = open \cup {t}
   /\ coopen' = coopen \cup {{t, u} : u \in open}
@@ -75,6 +77,7 @@ OnEnd ==
   /\ UNCHANGED <<cur, open, started, coopen, early>>
 
 OnJoin ==
+  IF E.t = 0 THEN UNCHANGED <<cur, open, started, done, coopen, early>> ELSE
   /\ Chk("C07", "join-returned-before-task-finished", E.t \in done)
   /\ open' = open \ {E.t}
   /\ UNCHANGED <<cur, started, done, coopen, early>>
